@@ -11,8 +11,16 @@ CLAIM = ("Decided per explored history and fault sequence: the implementation ru
          "version (C19_no_fault_no_failure) and a failed write leaves the file untouched (C19_failed_write_no_effect). The "
          "history-level theorem is proved for a writer without rotation in direct mode (C19_faults_norotation: for every fault "
          "sequence and record list the file holds exactly the records whose open and write succeeded, every loss is reported, "
-         "C19_lost_only_failed, C19_recovery); with rotation, cleanup and buffering it is not proved: partial.")
-THEOREMS = ["C19_faults_norotation", "C19_lost_only_failed", "C19_recovery", "C19_no_fault_no_failure", "C19_failed_write_no_effect"]
+         "C19_lost_only_failed, C19_recovery) and for a ROTATING writer (Numbers naming, size criterion, direct mode) for EVERY fault "
+         "oracle and record list: directory, error channel (exact codes) and remaining oracle are what the executable specification simr "
+         "computes and every call returns normally (C19_rot_faults_rotation); a record whose own log call met no failure is in the stream, "
+         "a missing record met one and reported EWrite; the stream is an in-order subsequence of the records; missing records = number of "
+         "EWrite reports <= number of reports (C19_rot_lost_only_around_failures, C19_rot_loss_is_reported); once the oracle holds no more "
+         "failures nothing is reported, every further record is written and rotation follows the fault-free size rule again "
+         "(C19_rot_recovery_spec, C19_rot_recovery_run). The analysis behind simr (what a failing rename / create / listing / write does) "
+         "is in Flw/FaultRotSpec.v. With cleanup, buffering and the other namings it is not proved: partial.")
+THEOREMS = ["C19_rot_faults_rotation", "C19_rot_lost_only_around_failures", "C19_rot_loss_is_reported", "C19_rot_recovery_spec", "C19_rot_recovery_run",
+            "C19_faults_norotation", "C19_lost_only_failed", "C19_recovery", "C19_no_fault_no_failure", "C19_failed_write_no_effect"]
 TRUSTED = ["modelled, not verified: which calls can fail and how the code reacts is tied by the correspondence; injected failures are "
            "io::ErrorKind::Other returned before the call (the call is then not made); BufWriter keeps unwritten bytes on a failed flush"]
 ASSUMPTIONS = ["failures are injected at the hook points (immediately before each file-system call), never in the middle of a call"]
